@@ -282,6 +282,10 @@ mod sx {
         "||gh.com/p^$csp=d4",
         "||r.com^$redirect=a",
         "||r.com/q^*$redirect-rule=b:5",
+        // csp rules that need a compiled regex (under the always-discard policy they are recompiled in
+        // every critical section of a csp query)
+        "|https://x.*/$csp=d9",
+        "|https://gh.*/$csp=d10",
         // a second tagged regex rule under another tag (history plans switch between the two)
         "other*rule$tag=u",
         // more of each: a switch t -> u -> t re-creates the t rules at the freed addresses of their
